@@ -6,6 +6,7 @@ import EzdxfVerif.Model.ReadersRepair
 import EzdxfVerif.Model.ReadersSniff
 import EzdxfVerif.Model.ReadersRecVer
 import EzdxfVerif.Model.ReadersFilter
+import EzdxfVerif.Model.ReadersLoad
 import EzdxfVerif.Gen.ReaderTables
 import Drivers.Proto
 open EzdxfVerif EzdxfVerif.Readers Proto
@@ -148,6 +149,8 @@ def step (line : String) : String :=
         | .error e => .error e
       match rdr with
       | "strict" => showRes (sup (strictModelspace cfg f))
+      | "json" => showRes (sup (jsonModelspace cfg (fun c => Gen.ReaderTables.pointCodes.contains c)
+                    (f.map fun t => JTag.single t.code t.val)))      -- load_json_tags on the verbose pairs of the same tags
       | "strictf" => (match strictFileModelspace cfg f with            -- ezdxf.readfile: sniffer in front of ezdxf.read
                       | some r => showRes (sup r)
                       | none => "err:OSError")
@@ -293,6 +296,14 @@ def step (line : String) : String :=
         | some k => idx.filter (· ≤ k)
         | none => idx
       ",".intercalate (upto.map (fun k => toString (locationOf raw k)))
+  | ["gr", msp, psp, ty, base, body, xd] =>
+    match parseTags base, parseTags body, parseTags xd with
+    | some b, some bo, some x =>
+      let cfg := mkCfg msp psp
+      let g : GenericRecord := ⟨unesc ty, b, bo, x⟩
+      (if genericOK cfg Gen.ReaderTables.maxGroupCode g then "1" else "0") ++ "|"
+        ++ (if wEntOK cfg Gen.ReaderTables.maxGroupCode (Ent.single g.group) then "1" else "0") ++ "|" ++ showTags g.group
+    | _, _, _ => "bad-op gr"
   | ["ro", ts] =>
     match parseTags ts with
     | none => "bad-op tags"
